@@ -1,6 +1,7 @@
 import FgaVerif.Proofs.Clean
 import FgaVerif.Proofs.Listener
 import FgaVerif.Proofs.LineNumbers
+import FgaVerif.Proofs.LexDriver
 /-!
 # C16 — reported error positions lie inside the input and on the offending text
 
@@ -24,9 +25,21 @@ input.  Proved here, for **every** input (list of characters):
   origin (0, 0).  This holds *also* in the three classes of the open findings — there the position is
   inside the file but on the wrong declaration (`example`s below are the findings' witnesses).
 
-Not proved: that ANTLR's own positions lie inside the text it was given and that a token's recorded
-(line, column) is where its text stands (runtime contract; bounds-checked by the oracle on every rejected
-input, exact positions checked against the renderer's marks).  The module-merge half is **false of the
+* `lexer_positions_inside_input`, `lexer_items_partition_input`, `lexer_position_is_offset` — about the
+  **lexer model** (`Model/LexSim.lean`: a port of ANTLR's `LexerATNSimulator` and `Lexer.NextToken` that
+  interprets the automaton embedded in the generated Go lexer, re-extracted from /repo on every run, and is
+  compared with the real lexer token by token — type, text, line, column, channel, and every token
+  recognition error — on every DSL text the checks generate, error-ridden fuzz inputs included): the
+  tokens of all channels, the skipped tokens and the spans dropped after a token recognition error are
+  consecutive pieces of the text, the (line, column) of each is that of the offset where it starts, so the
+  line exists in the text and the column is not beyond its end.  These hold for **any** matcher, hence
+  for whatever automaton a grammar change puts into the lexer.  Together with `clean_prefix` this gives
+  "inside the input" for every position the lexer reports (token recognition errors) or attaches to a
+  token (which is where the parser's and the listener's errors are reported).
+
+Not proved: that ANTLR's *parser* reports its errors at the position of a token of the stream (its error
+strategy is not modelled; bounds-checked by the oracle on every rejected input, exact positions checked
+against the renderer's marks).  The module-merge half is **false of the
 code** in three narrow classes (open findings KF-C16-prefix-line, -substring-column, -spacing-not-found:
 the line is looked up by text search); outside them the oracle compares file, line and column with the
 positions the independent renderer recorded, and the Lean port of `line-numbers.go` reproduces the code's
@@ -107,6 +120,50 @@ theorem merge_position_inside_file (lines : List (List Char)) (pre sym : String)
 
 theorem merge_position_origin_when_not_found (lines : List (List Char)) (sym : String) :
     Merge.constructLineAndColumnData lines none sym = {} := rfl
+
+/-! ### positions of the lexer model -/
+open FgaVerif.Model.LexSim in
+/-- the items of the token loop are consecutive pieces of the text: concatenated they are a prefix of it,
+    and all of it unless the loop aborted (`popMode` on an empty stack, where the runtime panics) -/
+theorem lexer_items_partition_input (matcher : Nat → List Char → MatchRes) (rtt : Array Nat)
+    (acts : Array (Nat × Nat × Nat)) (fuel : Nat) (input : List Char) :
+    ((lexLoop matcher rtt acts fuel {} (1, 0) input).flatMap Item.chars <+: input) ∧
+    ((lexLoop matcher rtt acts fuel {} (1, 0) input).all (fun i => !i.isAbort) = true →
+      (lexLoop matcher rtt acts fuel {} (1, 0) input).flatMap Item.chars = input) :=
+  lexLoop_partition matcher rtt acts fuel {} (1, 0) input
+
+open FgaVerif.Model.LexSim in
+/-- the line and column recorded for a token or a token recognition error are those of the offset at
+    which it starts (line = 1 + line breaks before it, column = characters since the last one) -/
+theorem lexer_position_is_offset (matcher : Nat → List Char → MatchRes) (rtt : Array Nat)
+    (acts : Array (Nat × Nat × Nat)) (fuel : Nat) (input : List Char) (pre : List Item) (it : Item) (post : List Item)
+    (h : lexLoop matcher rtt acts fuel {} (1, 0) input = pre ++ it :: post) (hna : it.isAbort = false) :
+    it.pos = advanceL (1, 0) (pre.flatMap Item.chars) ∧
+    advanceL (1, 0) (pre.flatMap Item.chars) =
+      ((splitLines (pre.flatMap Item.chars)).length, ((splitLines (pre.flatMap Item.chars)).getLastD []).length) :=
+  ⟨lexLoop_positions matcher rtt acts fuel {} (1, 0) input pre it post h hna, advanceL_start _⟩
+
+open FgaVerif.Model.LexSim in
+/-- **every position the lexer reports lies inside the text**: the (1-based) line exists and the column
+    is not beyond the end of that line — for every token of every channel and every token recognition
+    error, whatever the automaton -/
+theorem lexer_positions_inside_input (matcher : Nat → List Char → MatchRes) (rtt : Array Nat)
+    (acts : Array (Nat × Nat × Nat)) (fuel : Nat) (input : List Char) (it : Item)
+    (hmem : it ∈ lexLoop matcher rtt acts fuel {} (1, 0) input) (hna : it.isAbort = false) :
+    ∃ ln, (splitLines input)[it.pos.1 - 1]? = some ln ∧ it.pos.2 ≤ ln.length :=
+  lexLoop_position_inside matcher rtt acts fuel input it hmem hna
+
+/-! non-vacuity: a toy matcher (letters form words, a blank is a one-character token, anything else is
+    an error) on a two-line text; the error on line 2 is reported at column 1 -/
+open FgaVerif.Model.LexSim in
+def toyMatcher (_ : Nat) (cs : List Char) : MatchRes :=
+  match cs with
+  | [] => .eof
+  | c :: rest => if c.isAlpha then .accept (1 + (rest.takeWhile Char.isAlpha).length) 0 []
+                 else if c == ' ' || c == '\n' then .accept 1 1 [] else .fail 0
+open FgaVerif.Model.LexSim in
+example : (lexLoop toyMatcher #[5, 6] #[] 20 {} (1, 0) "ab c\nd@e".toList).map Item.pos =
+    [(1, 0), (1, 2), (1, 3), (1, 4), (2, 0), (2, 1), (2, 2), (2, 3)] := by decide
 
 /-! ### the open findings, as facts about the port (and, by correspondence, the code) -/
 def kfFile : List (List Char) :=
